@@ -339,7 +339,7 @@ var curateStructs = []structSpec{{File: "cluster/actions.go", Name: "FailedPoint
 // the in-memory part of shard.IdCounter (the bucket and its keys are storage, not translated)
 var idCounterFields = []structSpec{{File: "shard/idcounter.go", Name: "IdCounter", Only: []string{"freeIds", "nextFreeId"}}}
 
-// a function outside the subset: reported, its whole module is not written, exit status 2
+// a function outside the subset: reported, its module is written WITHOUT it (function granularity, see main), exit status 2
 type failure struct{ msg string }
 
 func fail(pos token.Position, format string, a ...any) {
@@ -1801,6 +1801,7 @@ func main() {
 	mods := map[string][]genFunc{}
 	extMods := map[string]bool{}
 	failedMods := map[string]bool{}
+	failedFuncs := map[string][]string{}
 	seenMod := map[string]bool{}
 	knownFuncs := map[string]map[string]*xty{}
 	var order []string
@@ -1829,7 +1830,10 @@ func main() {
 						panic(r)
 					}
 					fmt.Fprintln(os.Stderr, f.msg)
-					failedMods[sp.Module] = true
+					// function granularity: the module is written WITHOUT this function (and says so); what refers to the
+					// missing definition no longer builds - the theorems about that function, i.e. its property - while
+					// the other definitions of the module, which other properties' models import, stay tied
+					failedFuncs[sp.Module] = append(failedFuncs[sp.Module], sp.File+" : "+sp.Recv+"."+sp.Func)
 					gs = nil
 				}
 			}()
@@ -1865,12 +1869,16 @@ func main() {
 		panic(err)
 	}
 	for _, m := range order {
-		if failedMods[m] {
+		if failedMods[m] || (len(failedFuncs[m]) > 0 && len(mods[m]) == 0) {
 			fmt.Fprintf(os.Stderr, "go2lean: module %s is not written\n", m)
 			continue
 		}
 		var b strings.Builder
 		b.WriteString("-- GENERATED by tools/go2lean from the working tree of the repository. DO NOT EDIT.\n")
+		for _, ff := range failedFuncs[m] {
+			fmt.Fprintf(os.Stderr, "go2lean: module %s is written without %s\n", m, ff)
+			b.WriteString("-- NOT TRANSLATED on this run (outside the translated subset, see the tool's message): " + ff + "\n")
+		}
 		b.WriteString("import SemaModel.Base.GoRt\n")
 		seen := map[string]bool{}
 		for _, im := range moduleImports[m] {
@@ -1891,7 +1899,7 @@ func main() {
 			panic(err)
 		}
 	}
-	if len(failedMods) != 0 {
+	if len(failedMods) != 0 || len(failedFuncs) != 0 {
 		os.Exit(2)
 	}
 }
